@@ -27,13 +27,19 @@ KNOBS = {'n_min': 2, 'n_max': 5, 'late_p': 0.2, 'trigger_p': 0.15,
          'apps': {'n_apps': (1, 2), 'n_progs': (1, 2)}}
 
 
+# a family with slow handshakes (each of its XML-RPCs takes 0 - 3 s, L3 engine): what a handshake has read of the
+# peer (its state, its Master) is delivered after the newer publications of that peer
+SLOW_KNOBS = dict(KNOBS, handshake_skew=[0.0, 0.3, 1.0, 2.0, 3.0], late_p=0.4)
+
+
 def plan(tier, seed):
-    return [{'seed': seed * 1000003 + i} for i in range(COUNT[tier])]
+    return [{'seed': seed * 1000003 + i} for i in range(COUNT[tier])] + \
+        [{'seed': seed * 1000003 + 800000 + i, 'family': 'slow-handshake'} for i in range(COUNT[tier] // 4)]
 
 
 def run_case(case):
     mon = MasterMonitor()
-    run = Run(case, KNOBS, [mon])
+    run = Run(case, SLOW_KNOBS if case.get('family') == 'slow-handshake' else KNOBS, [mon])
     violations = run.execute()
     return {'violations': violations, 'counters': run.counters,
             'signature': run.shape() if getattr(mon, 'nontrivial', False) else None, 'sample': run.describe()}
